@@ -1,6 +1,7 @@
 package main
 
 import (
+	"sync"
 	"fmt"
 	"go/ast"
 	"go/constant"
@@ -115,7 +116,25 @@ func (ev *Eval) evalPure(e ast.Expr) *Val {
 
 var nilVal = &Val{K: KPtr, T: "0", Why: "nil"}
 
+// nodeInfo records, for every contract AST node that was evaluated, the kind
+// and Go type of its value; the replay generator uses it to render contract
+// clauses as Go code with the conversions Go's type system asks for.
+type nodeInfo struct {
+	K  Kind
+	Ty types.Type
+}
+
+var nodeTypes sync.Map // ast.Expr -> nodeInfo
+
 func (ev *Eval) eval(e ast.Expr) *Val {
+	v := ev.eval1(e)
+	if v != nil {
+		nodeTypes.Store(e, nodeInfo{v.K, v.Ty})
+	}
+	return v
+}
+
+func (ev *Eval) eval1(e ast.Expr) *Val {
 	f := ev.f
 	f.pure++
 	defer func() { f.pure-- }()
